@@ -184,6 +184,11 @@ def run(ctx):
     from signac.job import calc_id
     n = 400 if ctx.quick else 6000
     vals = [_rand_map(rnd, 3, rnd.randrange(0, 5)) for _ in range(n)]
+    # every boundary of the escaping rules, as a value and as a key, in a flat and in a nested state point
+    for cp in list(range(0, 0x21)) + [0x22, 0x2f, 0x5c, 0x7e, 0x7f, 0x80, 0x9f, 0xa0, 0xad, 0xff, 0x100, 0x2028, 0x2029, 0xd7ff, 0xe000, 0xfffd, 0xfffe, 0xffff,
+                                     0x10000, 0x10001, 0x1f600, 0x10ffff]:
+        ch = chr(cp)
+        vals += [{"k": ch}, {"k": "a" + ch + "b", "n": 1}, {ch: 0}, {"m": {"x" + ch: [ch, 1.5]}}]
     gold = [c[0] for c in json.load(open(GOLD))["cases"]]
     goldids = [c[1] for c in json.load(open(GOLD))["cases"]]
     vals = gold + vals
